@@ -135,7 +135,7 @@ fn attr_table() -> Vec<Row> {
     ]
 }
 
-fn registry_of(f: impl FnOnce(&mut TypeGen) -> crux_core::typegen::Result) -> Result<Registry, String> {
+pub(crate) fn registry_of(f: impl FnOnce(&mut TypeGen) -> crux_core::typegen::Result) -> Result<Registry, String> {
     let mut gen = TypeGen::new();
     f(&mut gen).map_err(|e| e.to_string())?;
     let r = match gen.state {
@@ -1032,6 +1032,20 @@ pub fn run(tier: Tier) -> i32 {
         }
     }
 
+    // generator entry points: complete app generates, incompletely registered app is refused
+    let tg = crate::c10_typegen::run(&registry);
+    states += tg.states;
+    transitions += tg.transitions;
+    nontrivial += tg.states;
+    for (k, n) in tg.classes {
+        *classes.entry(k).or_insert(0) += n;
+    }
+    samples.extend(tg.samples);
+    for f in tg.found {
+        rep.violation(Violation { key: f.key, what: f.what, replay: f.replay, size: f.size });
+    }
+    let typegen_info = Json::Object(tg.info);
+
     for (_, (size, f, replay, count)) in smallest {
         let mut replay = replay;
         replay["values_with_this_finding"] = json!(count);
@@ -1063,7 +1077,7 @@ pub fn run(tier: Tier) -> i32 {
         "traces_validated_against_impl": states,
         "evaluations": states,
         "distinct_nontrivial": distinct.min(nontrivial),
-        "rule": "bounded-exhaustive product (model-checking family, shape E of DESIGN.md section 1): for every container of the traced registry, the full product of its fields' alphabets, where alphabets narrow with container nesting depth (levels below) and the product is taken under the widest level sequence that fits the per-container cap; plus, through the real bincode and JSON bridges of the echo app, every operation value and every output value of every capability (one level narrower); plus hand-built Rust values covering every variant of the shipped protocol types. Distinct = distinct (registry, container, encoding) hashes, non-trivial = encoding has a non-zero byte (flows always). states = values and flows checked, transitions = calls into serde/bincode/serde_json of the Rust types and into the bridges, traces_validated_against_impl = values and flows whose Rust-side bytes/JSON were compared with the schema codec's",
+        "rule": "bounded-exhaustive product (model-checking family, shape E of DESIGN.md section 1): for every container of the traced registry, the full product of its fields' alphabets, where alphabets narrow with container nesting depth (levels below) and the product is taken under the widest level sequence that fits the per-container cap; plus, through the real bincode and JSON bridges of the echo app, every operation value and every output value of every capability (one level narrower); plus hand-built Rust values covering every variant of the shipped protocol types; plus the generator entry points TypeGen::java and TypeGen::swift on the completely registered app (must generate, from the checked registry) and on an incompletely registered app (must refuse, or every byte string the real bridge accepts or emits for all variants of its nested enums must decode under the registry generated from). Distinct = distinct (registry, container, encoding) hashes, non-trivial = encoding has a non-zero byte (flows always). states = values and flows checked, transitions = calls into serde/bincode/serde_json of the Rust types and into the bridges, traces_validated_against_impl = values and flows whose Rust-side bytes/JSON were compared with the schema codec's",
         "exhaustive": all_exhaustive,
         "exhaustive_note": "true means every stated space (per container: the level sequence named in `containers`, per capability flow: the one named in `flows`) was enumerated completely, none was truncated; containers whose product under the widest sequence exceeds the cap were enumerated completely under the narrower sequence named for them and are listed in containers_enumerated_under_narrower_levels",
         "containers_enumerated_under_narrower_levels": narrowed,
@@ -1078,6 +1092,7 @@ pub fn run(tier: Tier) -> i32 {
         "flows": flow_info,
         "flow_cases": flow_cases.len(),
         "flow_cases_with_disagreement": flow_bad,
+        "generator_entry_points (java and swift into a directory under std::env::temp_dir(), removed afterwards; typescript needs pnpm and is not run)": typegen_info,
         "rust_origin_values": rvals.len(),
         "rust_origin_outcomes": rust_classes,
         "hash_collisions_or_repeats": total_hashes as u64 - distinct,
@@ -1095,6 +1110,7 @@ pub fn run(tier: Tier) -> i32 {
             "the value Rust holds is observed through serde_json::to_value (variant and field names) and through its bincode bytes (indices and layout); a disagreement is attributed to the innermost container that shows it on its own",
             "JSON Some(null)-style values (nested options, optional unit types) are not sent through the JSON reader because JSON cannot tell them from None",
             "maps are enumerated with ascending keys only (an ordered map is what Rust writes)",
+            "TypeGen::typescript is not executed (it shells out to pnpm); it obtains its registry through the same private ensure_registry as java and swift",
         ],
     )
 }
@@ -1158,6 +1174,19 @@ pub fn replay(path: &str) -> i32 {
             let r = run_flow(&ctx, &c, &op, out.as_ref(), w);
             println!("  step 3: {} bridge calls, emitted bytes compared with the schema encoding", r.steps);
             print(&r.findings)
+        }
+        Some("typegen") => {
+            let tg = crate::c10_typegen::run(&registry);
+            for (k, n) in &tg.classes {
+                println!("  step: {k} ({n})");
+            }
+            for f in &tg.found {
+                println!("  VIOLATION key={}: {}", f.key, f.what);
+            }
+            if tg.found.is_empty() {
+                println!("  ok: generation is refused for the incompletely registered app and succeeds for the complete one");
+            }
+            i32::from(!tg.found.is_empty())
         }
         Some("rust-value") => {
             let mut code = 0;
